@@ -1138,4 +1138,9 @@ def run(ctx: Ctx):
     from . import c02
     with ctx.delegated("C02/"):
         c02.run(ctx, who_may_write=False)
+    # "with and without an audio directory": the recording paths come back only if the directory given to save / load
+    # reaches every recording adapter unchanged and the stored path is relative to exactly that directory (rules of C18)
+    from . import c18
+    with ctx.delegated("C18/"):
+        c18.run_for_roundtrip(ctx)
     return EXPLANATION, ASSUMPTIONS
